@@ -56,10 +56,31 @@
 (* runs next to it: named deviation LockEntryDropped.  Arrival times are part of a behaviour:  *)
 (* Call(p) may happen at any point, in particular after another request has returned.          *)
 (*                                                                                             *)
+(* A list request (codequota: Service.ListConnectionCodesByTargetClient -> ListByTargetClient, *)
+(* taken WITHOUT the quota mutex) reads the per-client index and prunes every entry whose      *)
+(* record it does not find: LCall, LList (index read + record look-ups), LPrune (RemoveFromList)*)
+(* - a read-only query with a side effect, racing the storage operations of a create.  In the  *)
+(* code the records are written before the index entry, so a listed entry always has its       *)
+(* record.  Variant "indexfirst" (not the code): the index entry is appended first - a list    *)
+(* request in between prunes the entry of a code that then goes live uncounted (LivePruned).   *)
+(*                                                                                             *)
+(* Mapping handler, connection that gets a tunnel: Register (tunnel registered with the tunnel *)
+(* manager, reachable for peer notifications), then GoLive/Detach (Tunnel.Start succeeded) or  *)
+(* PeerClose (a TunnelError/TunnelClosed notification closes it first: the tunnel's OnClosed   *)
+(* releases the slot) followed by StartFail (Start fails, the deferred release runs - a no-op  *)
+(* thanks to the Once; variant "doublerelease": it decrements again).                          *)
+(*                                                                                             *)
 (* Histories (caps with an explicit removal: conncap CloseConnection, ctrlcap / tuncap Remove):*)
 (* ReRelease(p) removes an id that is not registered - a second close of the same connection,  *)
 (* or a close of an id never seen.  It must change nothing; at most MaxReRel per behaviour.    *)
 (*                                                                                             *)
+(* Which code is modelled is part of the configuration too (cfg.var, chosen from Variants):     *)
+(*   "none"          the code as it is now (the kinds in FixedKinds in their repaired form)    *)
+(*   "asis"          the code before the repairs (check and insert not atomic, no quota mutex,  *)
+(*                   slot freed when handleConnection returns)                                  *)
+(*   "wrongkey", "ctrlsplit", "lockdrop", "indexfirst", "doublerelease"                         *)
+(*                   faulty variants (not the code), described with the actions they change;    *)
+(*                   their behaviours must be unrealisable on the right tree                   *)
 (* The configuration (kind, n, limit, nodes) is chosen in Init, so one TLC run covers every    *)
 (* kind, n \in NS and limit \in Lims.  limit 0: the caps mean "unlimited"; the two storage      *)
 (* quotas compare `count >= limit` without a zero guard, so limit 0 refuses every request.     *)
@@ -69,15 +90,20 @@ CONSTANTS Kinds,        \* subset of {"conncap","ctrlcap","tuncap","maplimit","c
           NS,           \* numbers of racing requests, subset of 1..4
           Lims,         \* limit values
           NodeCounts,   \* numbers of service instances (quota kinds only; other kinds always 1)
-          LockKeys,     \* subset of {"owner", "issuer"}: client id the repaired quota code keys its mutex on
-          Variants,     \* faulty variants to model: "ctrlsplit" = ClientRegistry.Register evicts and inserts in two lock sections;
-                        \* "lockdrop" = the quota mutex table creates mutexes on demand and deletes the entry on unlock
+          Variants,     \* which code to model, subset of {"none", "asis", "wrongkey", "ctrlsplit", "lockdrop", "indexfirst", "doublerelease"}:
+                        \* "wrongkey" = quota mutex keyed on the code's issuer; "ctrlsplit" = ClientRegistry.Register evicts and
+                        \* inserts in two lock sections; "lockdrop" = the quota mutex table creates mutexes on demand and deletes
+                        \* the entry on unlock; "indexfirst" = index entry appended before the records; "doublerelease" = the
+                        \* mapping handler's slot release is not idempotent
+          Shape,        \* "free": every combination; "pairs": (2 requests, slack 1) and (3 requests, slack 2) only (maximal-behaviour jobs)
           MaxReRel,     \* removals of absent ids per behaviour
+          Listers,      \* 1: a list request may run next to the creates (codequota), 0: none
           Slacks,       \* free slots at the start: occupancy = limit - slack (1 = the boundary; 2 lets one request in before two race)
           FixedKinds,   \* kinds modelled in their repaired form; the tag "maplive" = the mapping handler keeps the slot
                         \* while the connection lives (kind maplimit, actions GoLive instead of Detach)
           WithRelease,  \* admitted requests may end (connection closed) while others still race
-          Emit,         \* print one behaviour per transition (generation with VIEW)
+          Emit,         \* print one behaviour per transition (generation with VIEW) ...
+          EmitMaxN,     \* ... for configurations with at most this many requests
           EmitAll       \* print every maximal behaviour (generation without VIEW)
 
 MaxN == 4
@@ -93,12 +119,18 @@ VARIABLES cfg,    \* [k, n, lim, nodes, tg, key, slack] - fixed per behaviour
           entry,  \* repaired quotas: the mutex the service's table holds for <<instance, key>> (0 = none)
           mx,     \* repaired quotas: the mutex a request locked or waits for
           nrr,    \* removals of absent ids so far
+          recs,   \* quotas: requests whose record is written (the code / mapping exists)
+          ixs,    \* quotas: requests with an entry in the per-client index, in append order
+          lpc,    \* list request: idle | list | prune | done
+          lq,     \* list request: index entries it still has to look up
+          ltg,    \* list request: the entry it is about to remove
           eff,    \* ghost: net contribution of each request to the semantic state
           dev,    \* ghost: a named deviation happened (StaleInsert, StalePut, SlotFreedWhileLive)
           over,   \* ghost: the limit was exceeded at some instant of this behaviour
           hist
-vars == <<cfg, pc, cnt, pre, q, lock, entry, mx, nrr, eff, dev, over, hist>>
-view == <<cfg, pc, cnt, pre, q, lock, entry, mx, nrr, eff, dev, over>>
+qx == <<recs, ixs, lpc, lq, ltg>>
+vars == <<cfg, pc, cnt, pre, q, lock, entry, mx, nrr, qx, eff, dev, over, hist>>
+view == <<cfg, pc, cnt, pre, q, lock, entry, mx, nrr, qx, eff, dev, over>>
 
 K == cfg.k
 Lim == cfg.lim
@@ -106,8 +138,13 @@ CapKinds == {"conncap", "maplimit"}
 RegKinds == {"ctrlcap", "tuncap"}
 QuotaKinds == {"codequota", "mapquota"}
 IsQuota == K \in QuotaKinds
-Fixed == K \in FixedKinds
-LiveFixed == "maplive" \in FixedKinds    \* the mapping handler's slot lives as long as the connection
+Var == cfg.var
+Fixed == K \in FixedKinds /\ Var # "asis"
+LiveFixed == "maplive" \in FixedKinds /\ Var # "asis"    \* the mapping handler's slot lives as long as the connection
+IndexFirst == Var = "indexfirst"
+DoubleRel == Var = "doublerelease"
+\* connections end / absent ids are removed only in the boundary configurations (slack 1) of the real orders
+Rel == WithRelease /\ cfg.slack = 1 /\ Var # "ctrlsplit"
 Node(p) == IF cfg.nodes = 1 THEN 1 ELSE 1 + (p % 2)
 \* the mutex a request takes: 0 = the shard of the client that owns the quota (the same for every racing request);
 \* p = the shard of the client that issued the code p activates (different per request when the issuers differ)
@@ -116,24 +153,35 @@ LockIds == (1..2) \X (0..MaxN)
 LK(p) == <<Node(p), KeyOf(p)>>
 PermId(i) == 100 + 10 * i[1] + i[2]            \* the permanent mutex of a key (fixed array slot)
 MX == (1..MaxN) \cup {PermId(i) : i \in LockIds}  \* mutex objects; p = the mutex request p created (variant lockdrop)
-LockDrop == "lockdrop" \in Variants
+LockDrop == Var = "lockdrop"
 RLM == PermId(<<1, 0>>)                          \* ctrlcap: the registry lock
-CtrlLocked == "ctrlsplit" \notin Variants
+CtrlLocked == Var # "ctrlsplit"
 RegFree == K = "ctrlcap" /\ CtrlLocked => lock[RLM] = 0
 
 Full(c) == Lim > 0 /\ c >= Lim      \* caps: 0 = unlimited
 QFull(c) == c >= Lim                \* quotas: no zero guard in the code
 
-Holds(s) == s \in {"adm", "live"} \/ (IsQuota /\ s = "index")      \* a code / mapping exists once its record is written
-OccOf(pcx, prex) == prex + Cardinality({p \in Procs : Holds(pcx[p])})
-Occ == OccOf(pc, pre)
+Holds(s) == s \in {"adm", "reg", "live"}
+\* occupancy: open connections / registered connections; quotas: codes / mappings whose record exists
+OccOf(pcx, prex, recx) == prex + (IF IsQuota THEN Cardinality(recx) ELSE Cardinality({p \in Procs : Holds(pcx[p])}))
+Occ == OccOf(pc, pre, recs)
 
-Init == \E k \in Kinds, nn \in NS, l \in Lims, nd \in NodeCounts, tg \in {"same", "distinct"}, ky \in LockKeys, sl \in Slacks :
+RacyKinds == {"conncap", "maplimit", "codequota", "mapquota"}
+Init == \E k \in Kinds, nn \in NS, l \in Lims, nd \in NodeCounts, tg \in {"same", "distinct"}, v \in Variants, sl \in Slacks :
           /\ (sl > 1 => sl <= l)
-          /\ (nd > 1 => k \in QuotaKinds)
+          /\ (nd > 1 => (k \in QuotaKinds /\ v = "none"))
           /\ (tg = "distinct" => k = "mapquota")
-          /\ (ky = "issuer" => (k = "mapquota" /\ tg = "distinct" /\ k \in FixedKinds))    \* elsewhere issuer = owner
-          /\ cfg = [k |-> k, n |-> nn, lim |-> l, nodes |-> nd, tg |-> tg, key |-> ky, slack |-> sl]
+          \* each variant only where it differs from "none", in the smallest configurations that show it
+          /\ (v = "asis" => (k \in RacyKinds /\ sl = 1))
+          /\ (v = "wrongkey" => (k = "mapquota" /\ tg = "distinct" /\ sl = 1))
+          /\ (v = "ctrlsplit" => (k = "ctrlcap" /\ sl = 1 /\ nn >= 3 /\ l > 0))
+          /\ (v = "lockdrop" => (k \in QuotaKinds /\ sl = 2 /\ nn >= 3))
+          /\ (v = "indexfirst" => (k = "codequota" /\ sl = 1 /\ nn = 2 /\ l > 0))
+          /\ (v = "doublerelease" => (k = "maplimit" /\ sl = 1 /\ nn = 3 /\ l > 0))
+          /\ (sl > 1 => v \in {"none", "lockdrop"})
+          /\ (Shape = "pairs" => (v = "ctrlsplit" \/ (nn = 2 /\ sl = 1) \/ (nn = 3 /\ sl = 2 /\ v = "none" /\ nd = 1)))
+          /\ cfg = [k |-> k, n |-> nn, lim |-> l, nodes |-> nd, tg |-> tg, slack |-> sl, var |-> v,
+                    key |-> IF v = "wrongkey" THEN "issuer" ELSE "owner"]
           /\ LET p0 == IF l = 0 THEN 0 ELSE l - sl IN
              /\ pre = p0 /\ cnt = p0
              /\ q = [i \in 1..p0 |-> Old + i]
@@ -141,6 +189,7 @@ Init == \E k \in Kinds, nn \in NS, l \in Lims, nd \in NodeCounts, tg \in {"same"
           /\ lock = [m \in MX |-> 0]
           /\ entry = [i \in LockIds |-> IF LockDrop THEN 0 ELSE PermId(i)]
           /\ mx = [p \in Procs |-> 0] /\ nrr = 0
+          /\ recs = {} /\ ixs = <<>> /\ lpc = "idle" /\ lq = <<>> /\ ltg = 0
           /\ eff = [p \in Procs |-> 0]
           /\ dev = FALSE /\ over = FALSE /\ hist = <<>>
 
@@ -148,14 +197,14 @@ Beh(h, o) == [cfg |-> cfg, over |-> o, steps |-> h]
 Got == IF \E i \in MX : lock'[i] # lock[i] /\ lock'[i] # 0
        THEN lock'[CHOOSE i \in MX : lock'[i] # lock[i] /\ lock'[i] # 0] ELSE 0
 \* conjoined last in every action: pc', pre', lock' are already determined
-Log(p, a) == /\ over' = (over \/ (Lim > 0 /\ OccOf(pc', pre') > Lim))
-             /\ hist' = Append(hist, [p |-> p, a |-> a, w |-> (pc'[p] = "wait"), g |-> Got])
-             /\ (Emit => PrintT("BEH " \o ToJson(Beh(hist', over'))))
+Log(p, a) == /\ over' = (over \/ (Lim > 0 /\ OccOf(pc', pre', recs') > Lim))
+             /\ hist' = Append(hist, [p |-> p, a |-> a, w |-> (p \in Procs /\ pc'[p] = "wait"), g |-> Got])
+             /\ ((Emit /\ cfg.n <= EmitMaxN) => PrintT("BEH " \o ToJson(Beh(hist', over'))))
 
 \* ---- caps whose check and insert are separate steps ----------------------------------------
 Check(p) == /\ K \in CapKinds /\ pc[p] = "start"
             /\ pc' = [pc EXCEPT ![p] = IF Full(cnt) THEN "refused" ELSE "mid"]
-            /\ UNCHANGED <<cfg, cnt, pre, q, lock, entry, mx, nrr, eff, dev>>
+            /\ UNCHANGED <<cfg, qx, cnt, pre, q, lock, entry, mx, nrr, eff, dev>>
             /\ Log(p, "Check")
 
 \* as is: the insert does not look at the count again (deviation StaleInsert when the cap was reached meanwhile)
@@ -163,7 +212,7 @@ Insert(p) == /\ K \in CapKinds /\ ~Fixed /\ pc[p] = "mid"
              /\ cnt' = cnt + 1 /\ eff' = [eff EXCEPT ![p] = 1]
              /\ dev' = (dev \/ Full(cnt))
              /\ pc' = [pc EXCEPT ![p] = "adm"]
-             /\ UNCHANGED <<cfg, pre, q, lock, entry, mx, nrr>>
+             /\ UNCHANGED <<cfg, qx, pre, q, lock, entry, mx, nrr>>
              /\ Log(p, "Insert")
 
 \* repaired CreateConnection: count check and map insert in one write-lock section
@@ -171,19 +220,19 @@ InsertChk(p) == /\ K = "conncap" /\ Fixed /\ pc[p] = "mid"
                 /\ IF Full(cnt)
                    THEN pc' = [pc EXCEPT ![p] = "refused"] /\ UNCHANGED <<cnt, eff>>
                    ELSE pc' = [pc EXCEPT ![p] = "adm"] /\ cnt' = cnt + 1 /\ eff' = [eff EXCEPT ![p] = 1]
-                /\ UNCHANGED <<cfg, pre, q, lock, entry, mx, nrr, dev>>
+                /\ UNCHANGED <<cfg, qx, pre, q, lock, entry, mx, nrr, dev>>
                 /\ Log(p, "InsertChk")
 
 \* repaired mapping handler: reserve with Add(1), compare the value Add returned, undo when over the limit
 AddCmp(p) == /\ K = "maplimit" /\ Fixed /\ pc[p] = "mid"
              /\ cnt' = cnt + 1 /\ eff' = [eff EXCEPT ![p] = 1]
              /\ pc' = [pc EXCEPT ![p] = IF Lim > 0 /\ cnt + 1 > Lim THEN "undo" ELSE "adm"]
-             /\ UNCHANGED <<cfg, pre, q, lock, entry, mx, nrr, dev>>
+             /\ UNCHANGED <<cfg, qx, pre, q, lock, entry, mx, nrr, dev>>
              /\ Log(p, "AddCmp")
 Undo(p) == /\ pc[p] = "undo"
            /\ cnt' = cnt - 1 /\ eff' = [eff EXCEPT ![p] = 0]
            /\ pc' = [pc EXCEPT ![p] = "refused"]
-           /\ UNCHANGED <<cfg, pre, q, lock, entry, mx, nrr, dev>>
+           /\ UNCHANGED <<cfg, qx, pre, q, lock, entry, mx, nrr, dev>>
            /\ Log(p, "Undo")
 
 \* ---- registries: check and insert under one lock -------------------------------------------
@@ -203,7 +252,7 @@ Reg(p) == /\ K \in RegKinds /\ pc[p] = "start" /\ RegFree
                   /\ pc' = IF old > Old THEN [pc EXCEPT ![p] = "evict"] ELSE [pc EXCEPT ![p] = "evict", ![old] = "evicted"]
                   /\ eff' = IF old > Old THEN eff ELSE [eff EXCEPT ![old] = 0]
           /\ lock' = IF K = "ctrlcap" /\ CtrlLocked /\ Full(cnt) THEN [lock EXCEPT ![RLM] = p] ELSE lock
-          /\ UNCHANGED <<cfg, dev, entry, mx, nrr>>
+          /\ UNCHANGED <<cfg, qx, dev, entry, mx, nrr>>
           /\ Log(p, "Reg")
 
 \* ... Close returned: insert. In the code this is still the lock section of Reg(p), so the count is the one Reg left;
@@ -214,44 +263,69 @@ RegIns(p) == /\ K = "ctrlcap" /\ pc[p] = "evict"
              /\ dev' = (dev \/ Full(cnt))
              /\ pc' = [pc EXCEPT ![p] = "adm"]
              /\ lock' = IF CtrlLocked THEN [lock EXCEPT ![RLM] = 0] ELSE lock
-             /\ UNCHANGED <<cfg, pre, entry, mx, nrr>>
+             /\ UNCHANGED <<cfg, qx, pre, entry, mx, nrr>>
              /\ Log(p, "RegIns")
 
-\* mapping handler: the connection got its tunnel and is relayed from now on; handleConnection returns.
+\* mapping handler: the connection got its tunnel, which is now registered with the tunnel manager (peer
+\* notifications can reach it); Tunnel.Start comes next
+Register(p) == /\ K = "maplimit" /\ Rel /\ pc[p] = "adm"
+               /\ pc' = [pc EXCEPT ![p] = "reg"]
+               /\ UNCHANGED <<cfg, qx, cnt, pre, q, lock, entry, mx, nrr, eff, dev>>
+               /\ Log(p, "Register")
+
+\* Tunnel.Start succeeded: the connection is relayed from now on; handleConnection returns.
 \* As is, the deferred Add(-1) runs now (deviation SlotFreedWhileLive); repaired, the tunnel's close callback runs it.
-GoLive(p) == /\ K = "maplimit" /\ WithRelease /\ pc[p] = "adm"
+GoLive(p) == /\ K = "maplimit" /\ pc[p] = "reg"
              /\ pc' = [pc EXCEPT ![p] = "live"]
              /\ cnt' = IF LiveFixed THEN cnt ELSE cnt - 1
              /\ dev' = (dev \/ ~LiveFixed)
-             /\ UNCHANGED <<cfg, pre, q, lock, entry, mx, nrr, eff>>
+             /\ UNCHANGED <<cfg, qx, pre, q, lock, entry, mx, nrr, eff>>
              /\ Log(p, IF LiveFixed THEN "GoLive" ELSE "Detach")
 
+\* a peer notification (fatal TunnelError / TunnelClosed) closes the registered tunnel before it was started:
+\* the connection ends; the tunnel's close callback gives the slot back (repaired code; as is it does not)
+PeerClose(p) == /\ K = "maplimit" /\ pc[p] = "reg"
+                /\ pc' = [pc EXCEPT ![p] = "regc"]
+                /\ cnt' = IF LiveFixed THEN cnt - 1 ELSE cnt
+                /\ eff' = [eff EXCEPT ![p] = 0]
+                /\ UNCHANGED <<cfg, qx, pre, q, lock, entry, mx, nrr, dev>>
+                /\ Log(p, "PeerClose")
+
+\* ... Tunnel.Start then fails; handleConnection's deferred release runs: as is it is the only release; repaired it
+\* is a no-op (sync.Once); variant "doublerelease": it decrements a second time (deviation DoubleRelease)
+StartFail(p) == /\ K = "maplimit" /\ pc[p] = "regc"
+                /\ pc' = [pc EXCEPT ![p] = "rel"]
+                /\ cnt' = IF ~LiveFixed \/ DoubleRel THEN cnt - 1 ELSE cnt
+                /\ dev' = (dev \/ (LiveFixed /\ DoubleRel))
+                /\ UNCHANGED <<cfg, qx, pre, q, lock, entry, mx, nrr, eff>>
+                /\ Log(p, "StartFail")
+
 \* an admitted connection ends
-Release(p) == /\ WithRelease /\ ~IsQuota /\ pc[p] \in {"adm", "live"} /\ RegFree
+Release(p) == /\ Rel /\ ~IsQuota /\ pc[p] \in {"adm", "live"} /\ RegFree
               /\ cnt' = IF pc[p] = "live" /\ ~LiveFixed THEN cnt ELSE cnt - 1
               /\ eff' = [eff EXCEPT ![p] = 0]
               /\ pc' = [pc EXCEPT ![p] = "rel"]
               /\ q' = SelectSeq(q, LAMBDA x : x # p)
-              /\ UNCHANGED <<cfg, pre, lock, entry, mx, nrr, dev>>
+              /\ UNCHANGED <<cfg, qx, pre, lock, entry, mx, nrr, dev>>
               /\ Log(p, "Release")
 
 \* a removal of an id that is not registered: second close of a connection that is gone, close of an unknown id
 \* (a request that has not called yet owns an id nobody has seen). Nothing may change.
-ReRelease(p) == /\ WithRelease /\ K \in {"conncap", "ctrlcap", "tuncap"} /\ RegFree
+ReRelease(p) == /\ Rel /\ K \in {"conncap", "ctrlcap", "tuncap"} /\ RegFree
                 /\ pc[p] \in {"start", "rel", "refused", "evicted"} /\ nrr < MaxReRel
                 /\ nrr' = nrr + 1
-                /\ UNCHANGED <<cfg, pc, cnt, pre, q, lock, entry, mx, eff, dev>>
+                /\ UNCHANGED <<cfg, qx, pc, cnt, pre, q, lock, entry, mx, eff, dev>>
                 /\ Log(p, "ReRelease")
 
 \* ---- per-client quotas over shared storage -------------------------------------------------
 \* the call of p returns in state s; repaired: the mutex of its instance goes to a waiter, which runs on to its Count
-Return(p, s) ==
+Return(p, s, d) ==
   LET m == mx[p]
       ws == {w \in Procs : pc[w] = "wait" /\ mx[w] = m} IN
-  IF ~Fixed THEN pc' = [pc EXCEPT ![p] = s] /\ UNCHANGED <<lock, entry, dev>>
+  IF ~Fixed THEN pc' = [pc EXCEPT ![p] = s] /\ dev' = d /\ UNCHANGED <<lock, entry>>
   ELSE /\ entry' = IF LockDrop THEN [entry EXCEPT ![LK(p)] = 0] ELSE entry      \* variant: Delete(clientID), then Unlock
        \* deviation LockEntryDropped: the table forgets a mutex that is still in use (or somebody else's mutex)
-       /\ dev' = (dev \/ (LockDrop /\ (ws # {} \/ entry[LK(p)] # m)))
+       /\ dev' = (d \/ (LockDrop /\ (ws # {} \/ entry[LK(p)] # m)))
        /\ IF ws # {}
           THEN \E w \in ws : /\ pc' = [pc EXCEPT ![p] = s, ![w] = "count"]
                              /\ lock' = [lock EXCEPT ![m] = w]
@@ -275,34 +349,64 @@ Call(p) == /\ IsQuota /\ pc[p] = "start"
                       ELSE /\ pc' = [pc EXCEPT ![p] = "count"]
                            /\ lock' = [lock EXCEPT ![m] = p]
                            /\ dev' = (dev \/ InFlightOtherKey(p))
-           /\ UNCHANGED <<cfg, cnt, pre, q, eff, nrr>>
+           /\ UNCHANGED <<cfg, qx, cnt, pre, q, eff, nrr>>
            /\ Log(p, "Call")
 
 \* the decision: number of countable entries in the per-client index at the time of the read
 Count(p) == /\ IsQuota /\ pc[p] = "count"
-            /\ IF QFull(cnt) THEN Return(p, "refused")
-               ELSE pc' = [pc EXCEPT ![p] = "put"] /\ UNCHANGED <<lock, entry, dev>>
-            /\ UNCHANGED <<cfg, cnt, pre, q, eff, mx, nrr>>
+            /\ IF QFull(cnt) THEN Return(p, "refused", dev)
+               ELSE pc' = [pc EXCEPT ![p] = IF IndexFirst THEN "index" ELSE "put"] /\ UNCHANGED <<lock, entry, dev>>
+            /\ UNCHANGED <<cfg, qx, cnt, pre, q, eff, mx, nrr>>
             /\ Log(p, "Count")
 
 \* the record is written: the code / mapping exists (deviation StalePut when the quota was used up meanwhile)
 Put(p) == /\ IsQuota /\ pc[p] = "put"
-          /\ pc' = [pc EXCEPT ![p] = "index"]
+          /\ recs' = recs \cup {p}
           /\ eff' = [eff EXCEPT ![p] = 1]
-          /\ dev' = (dev \/ QFull(Occ))
-          /\ UNCHANGED <<cfg, cnt, pre, q, lock, entry, mx, nrr>>
+          /\ IF IndexFirst THEN Return(p, "adm", dev \/ QFull(Occ))
+             ELSE pc' = [pc EXCEPT ![p] = "index"] /\ dev' = (dev \/ QFull(Occ)) /\ UNCHANGED <<lock, entry>>
+          /\ UNCHANGED <<cfg, cnt, pre, q, mx, nrr, ixs, lpc, lq, ltg>>
           /\ Log(p, "Put")
 
 \* the index entry is appended: from now on other requests count it
 Index(p) == /\ IsQuota /\ pc[p] = "index"
             /\ cnt' = cnt + 1
-            /\ Return(p, "adm")
-            /\ UNCHANGED <<cfg, pre, q, eff, mx, nrr>>
+            /\ ixs' = Append(ixs, p)
+            /\ IF IndexFirst THEN pc' = [pc EXCEPT ![p] = "put"] /\ UNCHANGED <<lock, entry, dev>>
+               ELSE Return(p, "adm", dev)
+            /\ UNCHANGED <<cfg, pre, q, eff, mx, nrr, recs, lpc, lq, ltg>>
             /\ Log(p, "Index")
 
-Next == \E p \in Procs : \/ Check(p) \/ Insert(p) \/ InsertChk(p) \/ AddCmp(p) \/ Undo(p)
-                         \/ Reg(p) \/ RegIns(p) \/ GoLive(p) \/ Release(p) \/ ReRelease(p)
-                         \/ Call(p) \/ Count(p) \/ Put(p) \/ Index(p)
+\* ---- the list request (no quota mutex) ---------------------------------------------------------
+HasLister == Listers = 1 /\ K = "codequota"
+\* look the entries of sq up one after the other; stop at the first one without a record
+Scan(sq) == LET bad == {i \in 1..Len(sq) : sq[i] \notin recs} IN
+            IF bad = {} THEN lpc' = "done" /\ lq' = <<>> /\ ltg' = 0
+            ELSE LET i == CHOOSE j \in bad : \A k \in bad : j <= k IN
+                 lpc' = "prune" /\ ltg' = sq[i] /\ lq' = SubSeq(sq, i + 1, Len(sq))
+LCall == /\ HasLister /\ lpc = "idle"
+         /\ lpc' = "list"
+         /\ UNCHANGED <<cfg, pc, cnt, pre, q, lock, entry, mx, nrr, eff, dev, recs, ixs, lq, ltg>>
+         /\ Log(0, "LCall")
+LList == /\ lpc = "list"
+         /\ Scan(ixs)
+         /\ UNCHANGED <<cfg, pc, cnt, pre, q, lock, entry, mx, nrr, eff, dev, recs, ixs>>
+         /\ Log(0, "LList")
+\* RemoveFromList of an entry whose record was not found - the entry of a create in flight (deviation LivePruned)
+LPrune == /\ lpc = "prune"
+          /\ LET there == \E i \in 1..Len(ixs) : ixs[i] = ltg IN
+             /\ ixs' = SelectSeq(ixs, LAMBDA x : x # ltg)
+             /\ cnt' = IF there THEN cnt - 1 ELSE cnt
+          /\ dev' = TRUE
+          /\ Scan(lq)
+          /\ UNCHANGED <<cfg, pc, pre, q, lock, entry, mx, nrr, eff, recs>>
+          /\ Log(0, "LPrune")
+
+Next == \/ \E p \in Procs : \/ Check(p) \/ Insert(p) \/ InsertChk(p) \/ AddCmp(p) \/ Undo(p)
+                            \/ Reg(p) \/ RegIns(p) \/ Release(p) \/ ReRelease(p)
+                            \/ Register(p) \/ GoLive(p) \/ PeerClose(p) \/ StartFail(p)
+                            \/ Call(p) \/ Count(p) \/ Put(p) \/ Index(p)
+        \/ LCall \/ LList \/ LPrune
 Spec == Init /\ [][Next]_vars
 
 \* ---- properties (C17) ----------------------------------------------------------------------
@@ -311,18 +415,25 @@ NoOvershoot == Lim > 0 => Occ <= Lim
 \* every overshoot goes through a named deviation (as-is models, and repaired quotas on several instances)
 Safe == NoOvershoot \/ dev
 NoDeviation == ~dev
+\* the code as it is, on one service instance: strict; everything else: every overshoot through a named deviation
+Strict == (Var = "none" /\ cfg.nodes = 1) => (NoOvershoot /\ NoDeviation)
 \* (2) a refused request has no net effect on the semantic state (nor has one that ended or was evicted)
 RefusedNoEffect == \A p \in Procs : pc[p] \in {"refused", "rel", "evicted", "start", "off"} => eff[p] = 0
 \* the counter the code maintains is exact: occupants plus reservations about to be undone
-CounterExact == cnt = pre + Cardinality({p \in Procs : pc[p] \in {"adm", "undo"} \/ (LiveFixed /\ pc[p] = "live")})
+CounterExact == Var \in {"doublerelease", "indexfirst"} \/ IF IsQuota THEN cnt = pre + Len(ixs)
+                ELSE cnt = pre + Cardinality({p \in Procs : \/ pc[p] \in {"adm", "undo", "reg"}
+                                                            \/ (LiveFixed /\ pc[p] = "live")
+                                                            \/ (~LiveFixed /\ pc[p] = "regc")})
 TypeOK == /\ cfg.n \in NS /\ cfg.lim \in Lims
-          /\ \A p \in Procs : pc[p] \in {"off", "start", "mid", "undo", "evict", "wait", "count", "put", "index", "adm", "live", "refused", "rel", "evicted"}
+          /\ \A p \in Procs : pc[p] \in {"off", "start", "mid", "undo", "evict", "wait", "count", "put", "index", "adm", "reg", "regc", "live", "refused", "rel", "evicted"}
+          /\ lpc \in {"idle", "list", "prune", "done"}
           /\ \A i \in MX : lock[i] = 0 \/ pc[lock[i]] \in {"count", "put", "index", "evict"}
           /\ (IsQuota /\ Fixed) => \A p \in Procs : pc[p] \in {"count", "put", "index"} => lock[mx[p]] = p
           /\ nrr \in 0..MaxReRel
 
 \* generation without VIEW: one line per maximal behaviour (every request refused, ended, evicted, or admitted for good)
-Terminal == \A p \in Procs : \/ pc[p] \in {"off", "refused", "rel", "evicted"}
-                             \/ (pc[p] = "adm" /\ (IsQuota \/ ~WithRelease))
+Terminal == /\ lpc \in {"idle", "done"} /\ ~(HasLister /\ lpc = "idle")
+            /\ \A p \in Procs : \/ pc[p] \in {"off", "refused", "rel", "evicted"}
+                                \/ (pc[p] = "adm" /\ (IsQuota \/ ~Rel))
 EmitMaximal == (EmitAll /\ Terminal) => PrintT("BEH " \o ToJson(Beh(hist, over)))
 =============================================================================
